@@ -246,7 +246,6 @@ type docInfo struct {
 	cands      []cand
 	skipped    []bool   // per byte: the state machine below does not read Markdown there (HTML, code block)
 	kinds      []string // per line: fence, indented, def, inline
-	outOfPhase []bool   // per byte: earlier on the line a code span ended inside a longer backtick string
 }
 
 var infoMemo = map[string]*docInfo{}
@@ -297,7 +296,7 @@ func analyse(doc string) *docInfo {
 	if len(doc) > 2000 || parsed(doc) == nil {
 		return in
 	}
-	in.skipped, in.kinds, in.outOfPhase = scanModel(doc)
+	in.skipped, in.kinds = scanModel(doc)
 	ls := 0
 	for ln, line := range strings.Split(doc, "\n") {
 		add := func(sp span, raw string, def bool, lb, anchor int) *cand {
@@ -371,21 +370,15 @@ func (in *docInfo) plain(c cand) bool {
 }
 
 // openBracket: the position of the innermost `[` still open at the end of prefix for a reader
-// that skips backslash escapes and code spans (a backtick run up to the last n backticks of the
-// next run of n or more, or to the end of the line: finding ld-code-span-closed-inside-longer-run)
-// and pairs brackets; -1 when none is open
+// that skips backslash escapes and code spans (a backtick string of n up to the next backtick
+// string of exactly n, or to the end of the line — strings of another length are content: the
+// rule of scanInlineLinks since fix 8b404d9, CommonMark's) and pairs brackets; -1 when none is
+// open
 func openBracket(prefix string) int {
-	lb, _ := openBracketRule(prefix, false)
-	return lb
+	return openBracketRule(prefix)
 }
 
-// openBracketLoose: openBracket for a reader whose code spans end at the LAST n backticks of the
-// first backtick string of n or more (what a loop does that steps one byte at a time through a
-// longer string), and that forgets its brackets after a `](destination…)`; diverged: some code
-// span ended inside a longer string, i.e. this reader's code spans differ from CommonMark's
-func openBracketLoose(prefix string) (lb int, diverged bool) { return openBracketRule(prefix, true) }
-
-func openBracketRule(prefix string, forget bool) (lb int, diverged bool) {
+func openBracketRule(prefix string) (lb int) {
 	var stack []int
 	for i := 0; i < len(prefix); i++ {
 		switch prefix[i] {
@@ -409,18 +402,14 @@ func openBracketRule(prefix string, forget bool) (lb int, diverged bool) {
 				for j+m < len(prefix) && prefix[j+m] == '`' {
 					m++
 				}
-				if m >= n {
-					if m > n {
-						diverged = true
-					}
-					j += m // the closing string is the last n backticks of the run
+				j += m
+				if m == n { // only a string of exactly n closes
 					closed = true
 					break
 				}
-				j += m
 			}
 			if !closed {
-				return -1, diverged // the rest of the line is inside the code span
+				return -1 // the rest of the line is inside the code span
 			}
 			i = j - 1
 		case '[':
@@ -428,27 +417,18 @@ func openBracketRule(prefix string, forget bool) (lb int, diverged bool) {
 		case ']':
 			if len(stack) > 0 {
 				stack = stack[:len(stack)-1]
-				if !forget {
-					// the brackets stay, but the destination and title of a link that ends here are not
-					// read as text (a backtick or a bracket in them opens nothing)
-					if sp, _, ok := anchorDest(prefix, i); ok {
-						i = linkEndAfterDest(prefix, sp.e) - 1
-					}
-					continue
-				}
-				if sp, _, ok := anchorDest(prefix, i); ok || strings.HasPrefix(prefix[i:], "]()") {
-					stack = stack[:0]
-					if ok {
-						i = linkEndAfterDest(prefix, sp.e) - 1
-					}
+				// the brackets stay, but the destination and title of a link that ends here are not
+				// read as text (a backtick or a bracket in them opens nothing)
+				if sp, _, ok := anchorDest(prefix, i); ok {
+					i = linkEndAfterDest(prefix, sp.e) - 1
 				}
 			}
 		}
 	}
 	if len(stack) == 0 {
-		return -1, diverged
+		return -1
 	}
-	return stack[len(stack)-1], diverged
+	return stack[len(stack)-1]
 }
 
 // linkEndAfterDest: where a reader that has taken line[..destEnd] for the destination of an
@@ -629,13 +609,12 @@ func defLine(line string) bool {
 // instructions, CDATA up to their closer; raw text elements up to their closing tag) takes for
 // HTML. HTML is looked for only while no `[` is open (brackets are counted outside HTML and
 // code spans, backslash escapes skipped, all brackets forgotten after a `](destination`); a
-// backtick run of n outside HTML opens a code span up to the last n backticks of the next run
-// of n or more, or the end of the line; code blocks are ignored here. This is a statement of the
+// backtick string of n outside HTML opens a code span up to the next backtick string of exactly
+// n, or the end of the line; code blocks are ignored here. This is a statement of the
 // CAUSE of several classes; whether it predicts the real code is measured by the precision
 // self-test, it is never taken on trust.
-func scanModel(doc string) ([]bool, []string, []bool) {
+func scanModel(doc string) ([]bool, []string) {
 	sk := make([]bool, len(doc)+1)
-	oop := make([]bool, len(doc)+1) // per byte: a code span of this line ended inside a longer backtick string before it
 	var kinds []string
 	var stack []string
 	rawTag, rawCloser := "", ""
@@ -761,13 +740,7 @@ func scanModel(doc string) ([]bool, []string, []bool) {
 					for j+m < len(line) && line[j+m] == '`' {
 						m++
 					}
-					if m >= n { // the last n backticks of a longer run close as well (ld-code-span-closed-inside-longer-run)
-						j += m - n
-						if m > n {
-							for k := j + n; k <= len(line) && ls+k < len(oop); k++ {
-								oop[ls+k] = true
-							}
-						}
+					if m == n { // only a backtick string of exactly n closes (fix 8b404d9)
 						break
 					}
 					j += m
@@ -793,7 +766,7 @@ func scanModel(doc string) ([]bool, []string, []bool) {
 		}
 		ls += len(line) + 1
 	}
-	return sk, kinds, oop
+	return sk, kinds
 }
 
 func popTag(stack []string, name string) []string {
@@ -1124,28 +1097,6 @@ func init() {
 				})
 			},
 			gen: genCodeSpanHTML},
-		{id: "ld-code-span-closed-inside-longer-run", minimal: "` ``[](a)`", clause: "only-destinations-change",
-			// cause: inside a code span of n backticks the loop of scanInlineLinks advances one byte at a
-			// time over a backtick string longer than n and takes its last n backticks for the closing
-			// string (CommonMark: only a string of exactly n closes). From there on the scanner's code
-			// spans are out of phase with goldmark's: link syntax that goldmark reads as part of a code
-			// span (or as text after one) is reached with an open bracket and rewritten.
-			effects: []string{"rewrote:code-span", "rewrote:text", "rewrote:link-syntax"},
-			predict: func(in *docInfo) []span {
-				return filterCands(in, func(c cand) bool {
-					if c.def || c.whole || !in.inlineLine(c) || !rewritable(c.raw) || !(c.at.role == "code-span" || c.at.role == "text" || c.at.role == "link-syntax") {
-						return false
-					}
-					// the scanner resumes after what it skipped as HTML
-					q := c.anchor
-					for q > c.ls && !in.skippedAt(q-1) {
-						q--
-					}
-					lb, diverged := openBracketLoose(in.doc[q:c.anchor])
-					return lb >= 0 && (diverged || c.anchor < len(in.outOfPhase) && in.outOfPhase[c.anchor]) && !in.anySkipped(q, c.e)
-				})
-			},
-			gen: genLooseTicks},
 		{id: "ld-paren-title-with-paren", minimal: "[a]:a (()", clause: "only-destinations-change",
 			// a parenthesised title with an unescaped `(`: not a title in CommonMark, so the whole
 			// is text; parseTitle accepts it
